@@ -1,13 +1,18 @@
-(** NESTED instance requirements: the tree-shaped denotation of an interface of a collection.
+(** NESTED instance requirements: the denotation of an interface of a collection as a tree.
 
-    [Den d T k tr ids]: in collection [T] the kind [k] denotes the nested-flat tree [tr] (AggregatorNestedSpec.wt), using
-    exactly the interfaces [ids] of [T], each of them ONCE:
+    [DenG Sh d T k tr ids]: in collection [T] the kind [k] denotes the nested-flat tree [tr] (AggregatorNestedSpec.wt), using
+    the interfaces [ids] of [T]:
       - a leaf kind (function, value, value type) denotes its resource-free tree and uses no interface;
       - [KInstance y] where [T[y]] is an ANONYMOUS interface without uses and with pairwise different export names
-        denotes [XInst e], [e] the trees of the exports in their order; it uses [y] and what the exports use, and these
-        sets are pairwise disjoint ([shaped]: [y] is not below itself, no interface is below two exports).
-    [IDen d T y oid e ids]: the same for the root interface [y] of a requirement, whose identifier [oid] is free.
-    [d] bounds the nesting depth (everything is by induction on it). *)
+        denotes [XInst e], [e] the trees of the exports in their order; it uses [y] and what the exports use.
+    [Sh] is a side condition on how the interfaces may be shared:
+      - [Den]  = [DenG shaped]: each interface is used ONCE ([shaped]: [y] is not below itself, no interface is below two
+        exports).  This is what the aggregator's own collection looks like (ownership: a merge below one export leaves
+        every other export alone);
+      - [SDen] = [DenG anyshape]: no condition - a contributor may mention one interface in several places (the repaired
+        aggregator copies an anonymous interface once per mention).
+    [IDenG Sh d T y oid e ids] ([IDen] / [SIDen]): the same for the root interface [y] of a requirement, whose identifier
+    [oid] is free.  [d] bounds the nesting depth (everything is by induction on it). *)
 From Coq Require Import ZArith ZifyBool ZifyN Lia.
 From WacV Require Import Str Names Types Checker SubSpec CheckerEq CheckerValue CheckerProofs SubSpecProofs.
 From WacV Require Import Aggregator AggregatorSpec AggregatorFrame AggregatorRemap AggregatorChecker AggregatorNames
@@ -20,22 +25,30 @@ Definition kids (P : kind -> tree -> list id -> Prop) (own : str -> list id)
            (exs : list (str * kind)) (e : list (str * tree)) : Prop :=
   Forall2 (fun nk nt => fst nk = fst nt /\ P (snd nk) (snd nt) (own (fst nk))) exs e.
 
-Definition shaped (y : id) (own : str -> list id) (names : list str) : Prop :=
+Definition shape := id -> (str -> list id) -> list str -> Prop.
+Definition shaped : shape := fun y own names =>
   (forall n, In n names -> ~ In y (own n)) /\
   (forall n m j, In n names -> In m names -> n <> m -> In j (own n) -> ~ In j (own m)).
+Definition anyshape : shape := fun _ _ _ => True.
 
-Definition IDenP (P : kind -> tree -> list id -> Prop) (T : types) (y : id) (oid : option str)
+Definition IDenP (Sh : shape) (P : kind -> tree -> list id -> Prop) (T : types) (y : id) (oid : option str)
            (e : list (str * tree)) (ids : list id) : Prop :=
   exists exs own, get_if T y = Some (mkif oid [] exs) /\ NoDup (map fst exs) /\ kids P own exs e /\
-                  shaped y own (map fst exs) /\ ids = y :: flat_map own (map fst exs).
+                  Sh y own (map fst exs) /\ ids = y :: flat_map own (map fst exs).
 
-Fixpoint Den (d : nat) (T : types) (k : kind) (tr : tree) (ids : list id) : Prop :=
+Fixpoint DenG (Sh : shape) (d : nat) (T : types) (k : kind) (tr : tree) (ids : list id) : Prop :=
   match d with
   | O => False
   | S d' => (leaf_den T k tr /\ ids = []) \/
-            (exists y e, k = KInstance y /\ tr = XInst e /\ IDenP (Den d' T) T y None e ids)
+            (exists y e, k = KInstance y /\ tr = XInst e /\ IDenP Sh (DenG Sh d' T) T y None e ids)
   end.
-Definition IDen (d : nat) (T : types) := IDenP (Den d T) T.
+Definition IDenG (Sh : shape) (d : nat) (T : types) := IDenP Sh (DenG Sh d T) T.
+(** the aggregator's side: every interface has one parent *)
+Notation Den := (DenG shaped).
+Notation IDen := (IDenG shaped).
+(** a contributor's side: interfaces may be shared *)
+Notation SDen := (DenG anyshape).
+Notation SIDen := (IDenG anyshape).
 
 Definition upd (own : str -> list id) (n : str) (v : list id) : str -> list id :=
   fun m => if str_eqb m n then v else own m.
@@ -98,23 +111,26 @@ Proof.
   - intros X Y Hp. constructor; [cbn [fst snd]; auto|]. now apply IH.
 Qed.
 
+Section AnyShape.
+  Context {Sh : shape}.
+
 (** * Monotonicity in the depth *)
-Lemma Den_mono T : forall d d' k tr ids, (d <= d')%nat -> Den d T k tr ids -> Den d' T k tr ids.
+Lemma Den_mono T : forall d d' k tr ids, (d <= d')%nat -> DenG Sh d T k tr ids -> DenG Sh d' T k tr ids.
 Proof.
-  induction d as [|d IH]; intros d' k tr ids L H; [destruct H|]. destruct d' as [|d']; [lia|]. cbn [Den] in *.
-  destruct H as [H|[y [e [-> [-> [exs [own [Hg [ND [K [Sh ->]]]]]]]]]]]; [now left|]. right. exists y, e. split; auto. split; auto.
-  exists exs, own. repeat split; auto; try apply Sh. eapply kids_impl; [|exact K]. intros n k tr _. apply IH. lia.
+  induction d as [|d IH]; intros d' k tr ids L H; [destruct H|]. destruct d' as [|d']; [lia|]. cbn [DenG] in *.
+  destruct H as [H|[y [e [-> [-> [exs [own [Hg [ND [K [S0 ->]]]]]]]]]]]; [now left|]. right. exists y, e. split; auto. split; auto.
+  exists exs, own. repeat split; auto; try apply S0. eapply kids_impl; [|exact K]. intros n k tr _. apply IH. lia.
 Qed.
-Lemma IDen_mono T d d' y oid e ids : (d <= d')%nat -> IDen d T y oid e ids -> IDen d' T y oid e ids.
+Lemma IDen_mono T d d' y oid e ids : (d <= d')%nat -> IDenG Sh d T y oid e ids -> IDenG Sh d' T y oid e ids.
 Proof.
-  intros L [exs [own [Hg [ND [K [Sh ->]]]]]]. exists exs, own. repeat split; auto; try apply Sh.
+  intros L [exs [own [Hg [ND [K [S0 ->]]]]]]. exists exs, own. repeat split; auto; try apply S0.
   eapply kids_impl; [|exact K]. intros n k tr _. now apply Den_mono.
 Qed.
-Lemma Den_inst d T y tr ids : Den (S d) T (KInstance y) tr ids -> exists e, tr = XInst e /\ IDen d T y None e ids.
-Proof. cbn [Den]. intros [[[L _] _]|[y0 [e [E [-> H]]]]]; [discriminate|]. injection E as <-. eauto. Qed.
-Lemma Den_leaf d T k tr ids : leafk k = true -> Den d T k tr ids -> leaf_den T k tr /\ ids = [].
+Lemma Den_inst d T y tr ids : DenG Sh (S d) T (KInstance y) tr ids -> exists e, tr = XInst e /\ IDenG Sh d T y None e ids.
+Proof. cbn [DenG]. intros [[[L _] _]|[y0 [e [E [-> H]]]]]; [discriminate|]. injection E as <-. eauto. Qed.
+Lemma Den_leaf d T k tr ids : leafk k = true -> DenG Sh d T k tr ids -> leaf_den T k tr /\ ids = [].
 Proof.
-  destruct d as [|d]; [intros _ []|]. cbn [Den]. intros L [H|[y [e [-> _]]]]; [exact H | discriminate].
+  destruct d as [|d]; [intros _ []|]. cbn [DenG]. intros L [H|[y [e [-> _]]]]; [exact H | discriminate].
 Qed.
 
 (** * Trees *)
@@ -123,16 +139,16 @@ Proof.
   intros [L [U R]]. apply (UnfK_leaf_inv _ _ _ L) in U. destruct k as [[| |v| | |]|i| | | |v]; try discriminate L;
     destruct U as [x [-> _]]; exact R.
 Qed.
-Lemma Den_wt T : forall d k tr ids, Den d T k tr ids -> wt d tr.
+Lemma Den_wt T : forall d k tr ids, DenG Sh d T k tr ids -> wt d tr.
 Proof.
-  induction d as [|d IH]; intros k tr ids H; [destruct H|]. cbn [Den wt] in *.
-  destruct H as [[H _]|[y [e [-> [-> [exs [own [Hg [ND [K [Sh ->]]]]]]]]]]]; [left; eapply leaf_den_tree; eauto|].
+  induction d as [|d IH]; intros k tr ids H; [destruct H|]. cbn [DenG wt] in *.
+  destruct H as [[H _]|[y [e [-> [-> [exs [own [Hg [ND [K [S0 ->]]]]]]]]]]]; [left; eapply leaf_den_tree; eauto|].
   right. exists e. split; auto. split; [now rewrite (kids_keys _ _ _ _ K)|].
   intros n x Hin. destruct (kids_in _ _ _ _ _ _ K Hin) as [k [_ Hk]]. eapply IH; eauto.
 Qed.
-Lemma IDen_wt T d y oid e ids : IDen d T y oid e ids -> wt (S d) (XInst e).
+Lemma IDen_wt T d y oid e ids : IDenG Sh d T y oid e ids -> wt (S d) (XInst e).
 Proof.
-  intros [exs [own [Hg [ND [K [Sh ->]]]]]]. apply wt_inst. split; [now rewrite (kids_keys _ _ _ _ K)|].
+  intros [exs [own [Hg [ND [K [S0 ->]]]]]]. apply wt_inst. split; [now rewrite (kids_keys _ _ _ _ K)|].
   intros n x Hin. destruct (kids_in _ _ _ _ _ _ K Hin) as [k [_ Hk]]. eapply Den_wt; eauto.
 Qed.
 
@@ -152,16 +168,16 @@ Proof.
     intros x y. apply unfold_mono. apply Nat.le_max_l. }
   now rewrite X.
 Qed.
-Lemma Den_unf T : forall d k tr ids, Den d T k tr ids -> UnfK T k tr.
+Lemma Den_unf T : forall d k tr ids, DenG Sh d T k tr ids -> UnfK T k tr.
 Proof.
-  induction d as [|d IH]; intros k tr ids H; [destruct H|]. cbn [Den] in H.
-  destruct H as [[[_ [U _]] _]|[y [e [-> [-> [exs [own [Hg [ND [K [Sh ->]]]]]]]]]]]; [exact U|].
+  induction d as [|d IH]; intros k tr ids H; [destruct H|]. cbn [DenG] in H.
+  destruct H as [[[_ [U _]] _]|[y [e [-> [-> [exs [own [Hg [ND [K [S0 ->]]]]]]]]]]]; [exact U|].
   destruct (kids_unfold _ T own exs e (fun n k tr _ H => IH k tr _ H) K) as [g Hg'].
   exists (S g). cbn [unfold]. rewrite Hg. cbn [i_exports]. now rewrite Hg'.
 Qed.
-Lemma IDen_unf T d y oid e ids : IDen d T y oid e ids -> UnfK T (KInstance y) (XInst e).
+Lemma IDen_unf T d y oid e ids : IDenG Sh d T y oid e ids -> UnfK T (KInstance y) (XInst e).
 Proof.
-  intros [exs [own [Hg [ND [K [Sh ->]]]]]].
+  intros [exs [own [Hg [ND [K [S0 ->]]]]]].
   destruct (kids_unfold _ T own exs e (fun n k tr _ H => Den_unf T d k tr _ H) K) as [g Hg'].
   exists (S g). cbn [unfold]. rewrite Hg. cbn [i_exports]. now rewrite Hg'.
 Qed.
@@ -174,18 +190,18 @@ Qed.
 (** * The interfaces used exist *)
 Lemma in_flat_own (own : str -> list id) names j : In j (flat_map own names) <-> exists n, In n names /\ In j (own n).
 Proof. apply in_flat_map. Qed.
-Lemma Den_exist T : forall d k tr ids, Den d T k tr ids -> forall j, In j ids -> exists z, get_if T j = Some z.
+Lemma Den_exist T : forall d k tr ids, DenG Sh d T k tr ids -> forall j, In j ids -> exists z, get_if T j = Some z.
 Proof.
-  induction d as [|d IH]; intros k tr ids H j Hj; [destruct H|]. cbn [Den] in H.
-  destruct H as [[_ ->]|[y [e [-> [-> [exs [own [Hg [ND [K [Sh ->]]]]]]]]]]]; [destruct Hj|].
+  induction d as [|d IH]; intros k tr ids H j Hj; [destruct H|]. cbn [DenG] in H.
+  destruct H as [[_ ->]|[y [e [-> [-> [exs [own [Hg [ND [K [S0 ->]]]]]]]]]]]; [destruct Hj|].
   destruct Hj as [<-|Hj]; [eauto|]. apply in_flat_own in Hj as [n [Hn Hj]].
   apply in_map_iff in Hn as [[n0 k0] [<- Hin]]. cbn [fst] in Hj.
   assert (Ha : assoc n0 exs = Some k0) by now apply in_assoc.
   destruct (kids_assoc _ _ _ _ _ _ K Ha) as [tr0 [_ Hk]]. eapply IH; eauto.
 Qed.
-Lemma IDen_exist T d y oid e ids : IDen d T y oid e ids -> forall j, In j ids -> exists z, get_if T j = Some z.
+Lemma IDen_exist T d y oid e ids : IDenG Sh d T y oid e ids -> forall j, In j ids -> exists z, get_if T j = Some z.
 Proof.
-  intros [exs [own [Hg [ND [K [Sh ->]]]]]] j [<-|Hj]; [eauto|]. apply in_flat_own in Hj as [n [Hn Hj]].
+  intros [exs [own [Hg [ND [K [S0 ->]]]]]] j [<-|Hj]; [eauto|]. apply in_flat_own in Hj as [n [Hn Hj]].
   apply in_map_iff in Hn as [[n0 k0] [<- Hin]]. cbn [fst] in Hj.
   assert (Ha : assoc n0 exs = Some k0) by now apply in_assoc.
   destruct (kids_assoc _ _ _ _ _ _ K Ha) as [tr0 [_ Hk]]. eapply Den_exist; eauto.
@@ -202,24 +218,58 @@ Proof. destruct y1, y2. cbn. congruence. Qed.
 Lemma leaf_den_ext T T' k tr : ext T T' -> leaf_den T k tr -> leaf_den T' k tr.
 Proof. intros E [L [U R]]. split; auto. split; auto. eapply UnfK_leaf_ext; eauto. Qed.
 Lemma Den_frame T T' : ext T T' -> forall d k tr ids,
-  (forall j z, In j ids -> get_if T j = Some z -> get_if T' j = Some z) -> Den d T k tr ids -> Den d T' k tr ids.
+  (forall j z, In j ids -> get_if T j = Some z -> get_if T' j = Some z) -> DenG Sh d T k tr ids -> DenG Sh d T' k tr ids.
 Proof.
-  intros E. induction d as [|d IH]; intros k tr ids Hsame H; [destruct H|]. cbn [Den] in *.
-  destruct H as [[H ->]|[y [e [-> [-> [exs [own [Hg [ND [K [Sh ->]]]]]]]]]]]; [left; split; auto; eapply leaf_den_ext; eauto|].
-  right. exists y, e. split; auto. split; auto. exists exs, own. split; [apply Hsame; auto; now left|]. repeat split; auto; try apply Sh.
+  intros E. induction d as [|d IH]; intros k tr ids Hsame H; [destruct H|]. cbn [DenG] in *.
+  destruct H as [[H ->]|[y [e [-> [-> [exs [own [Hg [ND [K [S0 ->]]]]]]]]]]]; [left; split; auto; eapply leaf_den_ext; eauto|].
+  right. exists y, e. split; auto. split; auto. exists exs, own. split; [apply Hsame; auto; now left|]. repeat split; auto; try apply S0.
   eapply kids_impl; [|exact K]. intros n k tr Hin Hk. apply IH; auto. intros j z Hj. apply Hsame. right.
   apply in_flat_own. exists n. split; auto. change n with (fst (n, k)). now apply in_map.
 Qed.
 Lemma IDen_frame T T' d y oid e ids : ext T T' ->
-  (forall j z, In j ids -> get_if T j = Some z -> get_if T' j = Some z) -> IDen d T y oid e ids -> IDen d T' y oid e ids.
+  (forall j z, In j ids -> get_if T j = Some z -> get_if T' j = Some z) -> IDenG Sh d T y oid e ids -> IDenG Sh d T' y oid e ids.
 Proof.
-  intros E Hsame [exs [own [Hg [ND [K [Sh ->]]]]]]. exists exs, own. split; [apply Hsame; auto; now left|]. repeat split; auto; try apply Sh.
+  intros E Hsame [exs [own [Hg [ND [K [S0 ->]]]]]]. exists exs, own. split; [apply Hsame; auto; now left|]. repeat split; auto; try apply S0.
   eapply kids_impl; [|exact K]. intros n k tr Hin Hk. eapply Den_frame; eauto. intros j z Hj. apply Hsame. right.
   apply in_flat_own. exists n. split; auto. change n with (fst (n, k)). now apply in_map.
 Qed.
 
+(** every interface used other than the root is anonymous *)
+Definition anon_in (T : types) (j : id) : Prop := exists x, get_if T j = Some x /\ i_id x = None.
+Lemma Den_anon T : forall d k tr ids, DenG Sh d T k tr ids -> forall j, In j ids -> anon_in T j.
+Proof.
+  induction d as [|d IH]; intros k tr ids H j Hj; [destruct H|]. cbn [DenG] in H.
+  destruct H as [[_ ->]|[y [e [-> [-> [exs [own [Hg [ND [K [S0 ->]]]]]]]]]]]; [destruct Hj|].
+  destruct Hj as [<-|Hj]; [eexists; split; [exact Hg|reflexivity]|]. apply in_flat_own in Hj as [n [Hn Hj]].
+  apply in_map_iff in Hn as [[n0 k0] [<- Hin]]. cbn [fst] in Hj.
+  assert (Ha : assoc n0 exs = Some k0) by now apply in_assoc.
+  destruct (kids_assoc _ _ _ _ _ _ K Ha) as [tr0 [_ Hk]]. eapply IH; eauto.
+Qed.
+Lemma IDen_anon T d y oid e ids : IDenG Sh d T y oid e ids -> forall j, In j ids -> j = y \/ anon_in T j.
+Proof.
+  intros [exs [own [Hg [ND [K [S0 ->]]]]]] j [<-|Hj]; [now left|]. right. apply in_flat_own in Hj as [n [Hn Hj]].
+  apply in_map_iff in Hn as [[n0 k0] [<- Hin]]. cbn [fst] in Hj.
+  assert (Ha : assoc n0 exs = Some k0) by now apply in_assoc.
+  destruct (kids_assoc _ _ _ _ _ _ K Ha) as [tr0 [_ Hk]]. eapply Den_anon; eauto.
+Qed.
+Lemma IDen_root T d y oid e ids : IDenG Sh d T y oid e ids -> In y ids /\ exists x, get_if T y = Some x /\ i_id x = oid.
+Proof. intros [exs [own [Hg [_ [_ [_ ->]]]]]]. split; [now left|]. eexists. split; [exact Hg|reflexivity]. Qed.
+End AnyShape.
+
+(** a tree-shaped requirement is in particular a requirement *)
+Lemma Den_SDen T : forall d k tr ids, Den d T k tr ids -> SDen d T k tr ids.
+Proof.
+  induction d as [|d IH]; intros k tr ids H; [destruct H|]. cbn [DenG] in *.
+  destruct H as [H|[y [e [-> [-> [exs [own [Hg [ND [K [_ ->]]]]]]]]]]]; [now left|]. right. exists y, e. split; auto. split; auto.
+  exists exs, own. repeat split; auto. eapply kids_impl; [|exact K]. intros n k tr _. apply IH.
+Qed.
+Lemma IDen_SIDen T d y oid e ids : IDen d T y oid e ids -> SIDen d T y oid e ids.
+Proof.
+  intros [exs [own [Hg [ND [K [_ ->]]]]]]. exists exs, own. repeat split; auto.
+  eapply kids_impl; [|exact K]. intros n k tr _. apply Den_SDen.
+Qed.
+
 (** * What a copy or a merge leaves alone *)
-Definition fresh (ids : list id) (c : core) : Prop := forall j, In j ids -> rm_get (TInterface j) (c_remapped c) = None.
 Definition newids (c : core) (ids : list id) : Prop :=
   forall j, In j ids -> (length (t_interfaces (c_types c)) <= id_idx j)%nat.
 (** only the entries of [idsb] in the interface part of the remap table may change *)
@@ -230,8 +280,6 @@ Lemma rm_frame_trans idsb a b c : rm_frame idsb a b -> rm_frame idsb b c -> rm_f
 Proof. intros H1 H2 j N. rewrite (H2 j N). now apply H1. Qed.
 Lemma rm_frame_weaken (ids ids' : list id) c c' : (forall j, In j ids -> In j ids') -> rm_frame ids c c' -> rm_frame ids' c c'.
 Proof. intros H F j N. apply F. intros X. apply N. now apply H. Qed.
-Lemma fresh_frame ids idsb c c' : rm_frame idsb c c' -> (forall j, In j ids -> ~ In j idsb) -> fresh ids c -> fresh ids c'.
-Proof. intros F D H j Hj. rewrite (F j (D j Hj)). now apply H. Qed.
 
 (** a copy: every arena grows at its end *)
 Record AExt (c c' : core) : Prop := {
